@@ -83,6 +83,13 @@ add("C15", "structure", "exploration", "runtime monitor: before/after snapshots 
     "Cell facts and row/column sizes, styles and hidden flags at their permuted position; references of the classes the statement lists must follow their cells.",
     STRUCT_NOTE)
 
+add("C29", "structure", "exploration", "runtime monitor: invariant over an attribute table read through public getters before and after every setter call",
+    "Random setter sequences from hand-built multi-column descriptors; exactly the targeted attribute of the targeted lines may change, and it must take the requested value.",
+    "Trusted base: the table reader (public getters plus the stored row height field) and the per-operation 'allowed change' list in c29.rs.")
+add("C30", "structure", "exploration", "runtime monitor: reference map target -> Style compared with the engine's read-back after every assignment (late changes reveal aliasing)",
+    "Random assignment sequences over the full style attribute space with equal styles meeting on purpose, interleaved with named-style creation, application and update.",
+    "Trusted base: the expectation rules in c30.rs (row/column styles restyle existing cells; cells linked to a named style follow its updates).")
+
 NOT_YET = {}
 
 def main():
